@@ -416,20 +416,6 @@ theorem self_claim {ts0 : Nat} (tokA : Bool) (s s' : HistState) (id : Nat) (delt
       simp
   linarith
 
-/-- the exact value is linear in the liquidity -/
-theorem val_add (tokA : Bool) (p : Nat) (q q' : PositionD) (delta : Int) (h : addLiquidityDelta q.liq delta = .ok q'.liq)
-    (hL : q.liq ≤ U128_MAX) (el : q'.lower = q.lower) (eu : q'.upper = q.upper) :
-    val tokA p q' = val tokA p q + (delta : ℚ) * unitVal tokA p (sp q.lower) (sp q.upper) := by
-  obtain ⟨e, _⟩ := addLiq_spec _ _ _ h hL
-  unfold val
-  rw [el, eu]
-  have : ((q'.liq : Nat) : ℚ) = ((q.liq : Nat) : ℚ) + (delta : ℚ) := by
-    have h2 : (((q'.liq : Nat) : Int) : ℚ) = (((q.liq : Nat) : Int) + delta : Int) := by rw [e]
-    push_cast at h2
-    exact h2
-  rw [this]; ring
-
-
 theorem addLiq_eq (l l' : Nat) (d : Int) (h : addLiquidityDelta l d = .ok l') : (l' : Int) = l + d := by
   unfold addLiquidityDelta at h
   by_cases h0 : d = 0
@@ -445,7 +431,8 @@ theorem addLiq_eq (l l' : Nat) (d : Int) (h : addLiquidityDelta l d = .ok l') : 
       · cases h; omega
       · cases h
 
-theorem val_add' (tokA : Bool) (p : Nat) (q q' : PositionD) (delta : Int) (h : addLiquidityDelta q.liq delta = .ok q'.liq)
+/-- the exact value is linear in the liquidity -/
+theorem val_add_liq (tokA : Bool) (p : Nat) (q q' : PositionD) (delta : Int) (h : addLiquidityDelta q.liq delta = .ok q'.liq)
     (el : q'.lower = q.lower) (eu : q'.upper = q.upper) :
     val tokA p q' = val tokA p q + (delta : ℚ) * unitVal tokA p (sp q.lower) (sp q.upper) := by
   have e := addLiq_eq _ _ _ h
@@ -476,7 +463,7 @@ theorem solv_modcore {ts0 : Nat} (tokA : Bool) (s s' : HistState) (id : Nat) (de
       sumQ (pendQ tokA s.ticks s.pool.tick (glob tokA s)) s.positions - pendQ tokA s.ticks s.pool.tick (glob tokA s) pos +
         pendQ tokA s'.ticks s'.pool.tick (glob tokA s') u.position := by
     rw [mp.positions]; exact sumQ_replace _ _ _ id pos u.position ids mp.hpos hothers
-  have hv := val_add' tokA s.pool.price pos u.position delta hliq el eu
+  have hv := val_add_liq tokA s.pool.price pos u.position delta hliq el eu
   have hpf : pfOf tokA s' = pfOf tokA s := by unfold pfOf; rw [mp.pfA, mp.pfB]
   unfold claims
   rw [S_owed, S_val, S_pend, hpf, hv]
